@@ -68,6 +68,8 @@ struct Chain<E: El, I: Item<E>> {
     last_pending: Option<Arc<Flag>>,
     flat_out: Vec<VectorDiff<E>>,
     direct: bool,
+    /// per tap: did its stream answer Pending the last time it was polled?
+    tap_pending: Vec<bool>,
 }
 
 fn narrow<E: El>(kind: StageKind, input: &[E], lim: Option<usize>) -> Vec<E> {
@@ -148,7 +150,7 @@ impl<E: El, I: Item<E>> Chain<E, I> {
                 stages[k].seg = g;
             }
         }
-        Chain { top, pending_stage, log, stages, segs, reps, src_ended: false, ended: false, last_pending: None, flat_out: Vec::new(), direct: cfg.direct }
+        Chain { top, pending_stage, log, stages, segs, reps, src_ended: false, ended: false, last_pending: None, flat_out: Vec::new(), direct: cfg.direct, tap_pending: vec![false; 8] }
     }
 
     /// Late stacking: build the pending stage on the dynamic adapter that has
@@ -348,7 +350,10 @@ impl<E: El, I: Item<E>> Chain<E, I> {
                     Ok(())
                 }
             }
-            Evt::SrcItem(g, diffs) => self.on_item(g, diffs, cx, st),
+            Evt::SrcItem(g, diffs) => {
+                self.tap_pending[g] = false;
+                self.on_item(g, diffs, cx, st)
+            }
             Evt::LimItem(k, v) => {
                 let g = self.stages[k].seg;
                 let is_last = *self.segs[g].stages.last().unwrap() == k;
@@ -366,7 +371,11 @@ impl<E: El, I: Item<E>> Chain<E, I> {
                 }
                 Ok(())
             }
-            Evt::SrcPending(_) | Evt::LimEnd(_) | Evt::LimPending(_) => Ok(()),
+            Evt::SrcPending(g) => {
+                self.tap_pending[g] = true;
+                Ok(())
+            }
+            Evt::LimEnd(_) | Evt::LimPending(_) => Ok(()),
         }
     }
 
@@ -425,6 +434,18 @@ impl<E: El, I: Item<E>> Chain<E, I> {
             Poll::Pending => {
                 if !cx.alive {
                     return Err(viol("C08", cx.step, "pending-after-drop/adapter", "Pending although the vector was dropped".to_string()));
+                }
+                // A stage may answer Pending only because its input did.
+                for g in (0..self.segs.len()).rev() {
+                    if !self.tap_pending[g] {
+                        let k = *self.segs[g].stages.last().unwrap();
+                        return Err(viol(
+                            self.view_prop(g, cx),
+                            cx.step,
+                            format!("pending-although-input-not-pending/{}", self.stages[k].kind.name()),
+                            format!("stage(s) {:?} answered Pending although the stream below last answered with an item: undelivered input may remain", self.segs[g].stages),
+                        ));
+                    }
                 }
                 self.quiescent_checks(cx, st)?;
                 self.last_pending = Some(flag);
@@ -557,6 +578,11 @@ impl<E: El, I: Item<E>> World<E, I> {
             Op::Set(i, k) => t.v_set(i as usize, mk(k)),
             Op::Remove(i) => t.v_remove(i as usize),
             Op::Truncate(n) => t.v_truncate(n as usize),
+            Op::BurstSet0(n) => {
+                for _ in 0..n {
+                    t.v_set(0, mk(0));
+                }
+            }
         }
     }
 
